@@ -1026,7 +1026,6 @@ func isRefType(t types.Type) bool {
 	return false
 }
 
-
 // isGoTarget: fn is a plain function / method that is only ever started with `go fn(...)`.
 func isGoTarget(P *Prog, fn *ssa.Function) bool {
 	if fn.Parent() != nil {
